@@ -99,3 +99,80 @@ func directedSynBeforeAccept(r *lib.Run, idx int) {
 		r.Count("directed_syn_before_accept_partial_failures_info", attempts-ok)
 	}
 }
+
+// Directed history: the responder's routing table still holds an OLDER signed record of the asker
+// that advertises a different protocol-version list than the record the asker runs with now (the
+// asker was reconfigured and has not been revalidated yet). The discv5 session carries the current
+// record. A large FINDCONTENT must still hand the asker exactly the stored bytes, in both directions
+// of the change (upgraded: old [0], now [0,1]; downgraded: old [0,1], now [0]).
+func directedStaleTableRecord(r *lib.Run, idx int) {
+	rng := r.RNG("directed-stale-record", idx)
+	upgraded := idx%2 == 0
+	oldV, nowV := []uint8{0}, []uint8{0, 1}
+	if !upgraded {
+		oldV, nowV = nowV, oldV
+	}
+	hub := pnode.NewHub()
+	st := pnode.NewKVStore()
+	R, err := hub.StartNode(pnode.NodeOpts{Key: pnode.NewKey(rng), Addr: pnode.Addr4(10, 8, 1, 1, 9000), Network: portalwire.History, Versions: []uint8{0, 1}, Storage: st, MaxUtp: 50, RespTimeout: 2 * time.Second, VersionsTTL: time.Hour})
+	if err != nil {
+		r.FloorMiss("directed stale record: responder: %v", err)
+		return
+	}
+	defer R.Stop()
+	akey := pnode.NewKey(rng)
+	aaddr := pnode.Addr4(10, 8, 1, 2, 9001)
+	A, err := hub.StartNode(pnode.NodeOpts{Key: akey, Addr: aaddr, Network: portalwire.History, Versions: nowV, MaxUtp: 50, RespTimeout: 2 * time.Second, VersionsTTL: time.Hour})
+	if err != nil {
+		r.FloorMiss("directed stale record: asker: %v", err)
+		return
+	}
+	defer A.Stop()
+	R.Utp.VerifSetConnConfig(pnode.ShortUtpConfig())
+	A.Utp.VerifSetConnConfig(pnode.ShortUtpConfig())
+	stale := pnode.SignedNode(akey, aaddr.Addr(), int(aaddr.Port()), 1, pnode.VersionsEntry(oldV))
+	if A.Self().Seq() <= stale.Seq() {
+		r.Inconclusive("directed stale record %d: the asker's live record is not newer than the old one", idx)
+		return
+	}
+	if !R.P.VerifTable().VerifAddFound(stale, true) {
+		r.Inconclusive("directed stale record %d: the old record could not be placed in the responder's table", idx)
+		return
+	}
+	ok := 0
+	var lastErr error
+	const attempts = 3
+	for a := 0; a < attempts; a++ {
+		key := make([]byte, 33)
+		rng.Read(key)
+		key[0] = 0
+		val := make([]byte, 3000+rng.Intn(60000))
+		rng.Read(val)
+		id := sha256.Sum256(key)
+		_ = st.Put(key, id[:], val)
+		sel, got, err := A.P.VerifFindContent(R.Self(), key)
+		r.Eval(1)
+		if err != nil {
+			lastErr = err
+			continue
+		}
+		b, isBytes := got.([]byte)
+		if sel != portalwire.ContentConnIdSelector || !isBytes {
+			r.Violation("transfer-mode:utp-expected:directed", fmt.Sprintf("a %d-byte item was not announced as a uTP transfer (selector %d)", len(val), sel), nil)
+			return
+		}
+		if !bytes.Equal(b, val) {
+			r.Violation("different-bytes:utp:stale-table-record", fmt.Sprintf("asker (versions %v, older record in the responder's table says %v) ended up with %d bytes that differ from the %d stored bytes", nowV, oldV, len(b), len(val)),
+				map[string]any{"asker_versions_now": nowV, "asker_versions_in_old_record": oldV, "got_len": len(b), "stored_len": len(val)})
+			return
+		}
+		ok++
+	}
+	r.Count("directed_stale_table_record_transfers", attempts)
+	r.Count("directed_stale_table_record_delivered", ok)
+	r.Distinct(fmt.Sprintf("directed-stale-record-%d-%v->%v", idx, oldV, nowV))
+	if ok == 0 {
+		r.Violation("held-content-not-delivered:utp:stale-table-record", fmt.Sprintf("on a fault-free link none of %d large FINDCONTENT transfers was delivered to an asker (versions %v) whose older record in the responder's table says %v: %v", attempts, nowV, oldV, lastErr),
+			map[string]any{"asker_versions_now": nowV, "asker_versions_in_old_record": oldV, "last_error": fmt.Sprint(lastErr)})
+	}
+}
